@@ -163,6 +163,20 @@ func atomsRec(v ssa.Value, out map[string]bool, seen map[ssa.Value]bool, depth i
 // in '*' is a prefix pattern.
 func HasAll(atoms map[string]bool, want ...string) bool {
 	for _, w := range want {
+		if strings.HasPrefix(w, "~") {
+			sub := strings.TrimPrefix(w, "~")
+			found := false
+			for a := range atoms {
+				if strings.Contains(a, sub) {
+					found = true
+					break
+				}
+			}
+			if !found {
+				return false
+			}
+			continue
+		}
 		if strings.HasSuffix(w, "*") {
 			pre := strings.TrimSuffix(w, "*")
 			found := false
@@ -905,4 +919,56 @@ func ReachableAvoiding(from []*ssa.BasicBlock, avoid *ssa.BasicBlock) map[*ssa.B
 		st = append(st, b.Succs...)
 	}
 	return seen
+}
+
+
+// AnyOf combines matchers: the first that matches decides.
+func AnyOf(ms ...func(*ssa.If) (bool, bool)) func(*ssa.If) (bool, bool) {
+	return func(iff *ssa.If) (bool, bool) {
+		for _, m := range ms {
+			if ok, f := m(iff); ok {
+				return true, f
+			}
+		}
+		return false, false
+	}
+}
+
+// MatchBoolCallAtoms: like MatchBoolCall, additionally requiring the call's arguments
+// (incl. receiver) to carry the given provenance atoms.
+func MatchBoolCallAtoms(rejectWhen bool, callee string, atoms ...string) func(*ssa.If) (bool, bool) {
+	base := MatchBoolCall(rejectWhen, callee)
+	return func(iff *ssa.If) (bool, bool) {
+		ok, f := base(iff)
+		if !ok {
+			return false, false
+		}
+		cond := iff.Cond
+		for {
+			if u, isU := cond.(*ssa.UnOp); isU && u.Op == token.NOT {
+				cond = u.X
+				continue
+			}
+			break
+		}
+		if !HasAll(Atoms(cond), atoms...) {
+			return false, false
+		}
+		return true, f
+	}
+}
+
+// ResultUsed reports whether the value of a call is consumed by something other than debug info.
+func ResultUsed(c *ssa.Call) bool {
+	refs := c.Referrers()
+	if refs == nil {
+		return false
+	}
+	for _, r := range *refs {
+		if _, ok := r.(*ssa.DebugRef); ok {
+			continue
+		}
+		return true
+	}
+	return false
 }
